@@ -50,13 +50,20 @@ class RefSim:
       progress = False
       rest = []
       for path, a, b in pend:
+        if a[0] != "ref": a, b = b, a           # constant written on the left-hand side
         if b[0] != "ref":
-          out.append((path, a, b)); driven |= ir.ref_bits(top, path, a); progress = True
+          ba = ir.ref_bits(top, path, a)
+          if ba & driven: raise MachineryError(f"generator bug: constant connected to driven bits: {a}")
+          out.append((path, a, b)); driven |= ba; progress = True
           continue
         ba, bb = ir.ref_bits(top, path, a), ir.ref_bits(top, path, b)
         da, db = ba <= driven, bb <= driven
-        if da and not db: out.append((path, b, a)); driven |= bb; progress = True
-        elif db and not da: out.append((path, a, b)); driven |= ba; progress = True
+        if da and not db:
+          if bb & driven: raise MachineryError(f"generator bug: connection into partly driven bits: {b}")
+          out.append((path, b, a)); driven |= bb; progress = True
+        elif db and not da:
+          if ba & driven: raise MachineryError(f"generator bug: connection into partly driven bits: {a}")
+          out.append((path, a, b)); driven |= ba; progress = True
         elif da and db: raise MachineryError(f"generator bug: both sides of a connection are driven: {a} {b}")
         else: rest.append((path, a, b))
       pend = rest
